@@ -190,6 +190,34 @@ CLAIMED = {
                 "no adjacency; not repairable in the importer without changing the file contents).",
         "design_ref": "DESIGN.md §7 C11",
     },
+    "C16": {
+        "text": "Lean 4 theorems for the discrete clauses: detect_orientation_issue returns the error iff some vertex starts two segments or "
+                "ends two segments, for all geometries as lists of index pairs (with companions: closed loops and disjoint boundaries "
+                "accepted, repeated origin/end point rejected); grid sizing over Q: every geometry coordinate has at least one full cell "
+                "of margin on both sides and the grid ends less than two cells above the maximum. The geometric end-to-end clauses "
+                "(crossings are vertices, tiling, areas, coverage, orientation, clipping sides) are NOT theorems: they are evaluated by an "
+                "exact oracle (Fractions on the exact f64 values, explicit tolerances) on the REAL grisubal over generated simple polygons "
+                "and nested polygon sets in general position, cell sizes, three clip modes, mis-oriented variants. Tie for the modelled "
+                "parts: orient/grid-sizing commands answered by both drivers.",
+        "note": "Partial: only the discrete sub-algorithms are proved; the pipeline (intersections, edge bookkeeping with HashMap-ordered dart "
+                "numbering, epsilon bands, clip closure - pub(crate), not reachable from the public API) is validated on the implementation, "
+                "not modelled. Known findings D16a (a boundary loop inside one cell is silently dropped) and D16b (negatively oriented "
+                "face on a same-side dip crossed by another part of the boundary).",
+        "design_ref": "DESIGN.md §7 C16",
+    },
+    "C17": {
+        "text": "Lean 4 theorems on any WF 2-map carrying the three anchor storages, over the anchor merge table REGENERATED from "
+                "utils/anchors.rs on every run: merge algebra (commutative, idempotent, associative where defined, lower-dimensional anchor "
+                "wins, failure iff equal dimension and different ids); classify_capture never touches the topology nor removes an anchor "
+                "(WF preserved), is total (Ok / UnsupportedGeometry / final-assertion panic; never an index panic, never out of fuel); after "
+                "Ok every vertex, edge and face id of in-use darts is anchored; mark_curve terminates, only writes Curve(c), keeps anchored "
+                "vertices, succeeds on closed boundaries and errs only when the walk leaves the boundary. Tie: classify on anchored grids, "
+                "every WF 2-map n<=3 x anchor patterns, real capture meshes re-loaded into both drivers, sew/unsew on anchored maps; the "
+                "capture phase itself (points of interest anchored to nodes, curves/surfaces) is evaluated by the oracle on the real code.",
+        "note": "Partial: classification proved, capture (geometry) validated by the oracle only; 'one surface id per connected set of faces' "
+                "not proved. Known finding D17a (loop inside one cell dropped, twin of D16a).",
+        "design_ref": "DESIGN.md §7 C17",
+    },
 }
 
 REASONS_NOT_YET = "check not built yet in this round (planned, see DESIGN.md §7); no claim is made"
